@@ -1089,8 +1089,10 @@ type responseWriter struct {
 	headersFlushed bool
 	// have we already written the end of the stream (error/trailers/etc)?
 	endWritten bool
-	respMeta   *responseMeta
-	err        error
+	// has a complete response message already been forwarded?
+	msgForwarded bool
+	respMeta     *responseMeta
+	err          error
 	// wraps op.writer; initialized after headers are written
 	w io.WriteCloser
 	// may be used in place of op.writer for protocols that must see
@@ -1250,12 +1252,21 @@ func (w *responseWriter) Flush() {
 }
 
 func (w *responseWriter) flushMessage() {
+	w.msgForwarded = true
 	if w.buf != nil {
 		// we are buffering until we see trailers, so we don't
 		// want to actually flush the underlying response writer yet
 		return
 	}
 	w.flusher.Flush()
+}
+
+// extraMessage reports whether another response message would have to be
+// concatenated onto the previous one: the client protocol has no envelopes
+// and the method returns a single response message.
+func (w *responseWriter) extraMessage() bool {
+	return w.msgForwarded && w.op.clientEnveloper == nil &&
+		w.op.methodConf.streamType&connect.StreamTypeServer == 0
 }
 
 func (w *responseWriter) reportError(err error) {
@@ -1488,6 +1499,11 @@ func (w *envelopingWriter) handleEnvelopeWritten() error {
 		w.trailerIsCompressed = env.compressed
 		w.remainingBytes = int(env.length)
 		return nil
+	}
+	if w.rw.extraMessage() {
+		err := errors.New("response stream has more than one message")
+		w.rw.reportError(err)
+		return err
 	}
 	if w.rw.op.clientEnveloper != nil {
 		envBytes := w.rw.op.clientEnveloper.encodeEnvelope(env)
@@ -1766,6 +1782,9 @@ func (w *transformingWriter) flushMessage() error {
 		return nil
 	}
 
+	if w.rw.extraMessage() {
+		return errors.New("response stream has more than one message")
+	}
 	// We've finished reading the message, so we can manually set the stage
 	w.msg.markReady()
 	if err := w.msg.advanceToStage(w.rw.op, stageSend); err != nil {
